@@ -213,6 +213,73 @@ def alias_order(ak: int, body: int, perm: int):
               (ALIAS_KINDS[ak], ALIAS_BODIES[body], perm, results[0], results[1]))
 
 
+XPKG_LIB = (
+    "K = 3\n"
+    "def pb(x):\n    return x + K\n"
+    "def pb2(x):\n    return x * 2\n"
+    "@m.memento_function\n"
+    "def mb(x):\n    return pb2(x) + 1\n"
+    "@m.memento_function\n"
+    "def mb2(x):\n    return x\n"
+)
+XPKG_BODIES = ["lib.mb(x) + lib.pb(x)", "lib.pb(x) + lib.mb(x) + lib.mb2(x)", "lib.pb(x) + helper(x)", "lib.mb(x) + lib.pb(x) + lib.pb2(x) + lib.K"]
+XPKG_APP = (
+    "def helper(x):\n    return lib.mb2(x) + lib.pb2(x)\n"
+    "@m.memento_function\n"
+    "def report(x):\n    return %s\n"
+    "@m.memento_function\n"
+    "def top(x):\n    return report(x) + 1\n"
+)
+
+
+@obligation(
+    "C03.cross_package_order",
+    covers=("non-identity-order",),
+    bounds="a function of package vpka references memento functions, plain functions and a variable of ANOTHER package vpkb (through the "
+           "module object, 4 body shapes, also via a plain helper of its own package); every set of dotted names is iterated in each of "
+           "up to 24 orders: versions, rule keys and dependency sets of the function and of its caller are those of the sorted order "
+           "(whatever is or is not tracked across the package border must not depend on which name is visited first)",
+    variables="choice: body shape, permutation index",
+    stubs=("PermutedSet: iteration order of the sets of dotted names is a free choice (hash randomisation)",),
+    budget_s={"quick": 120, "thorough": 300},
+    choice_vars=2,
+)
+def cross_package_order(body: int, perm: int):
+    body = pick(body, len(XPKG_BODIES))
+    perm = pick(perm, 24)
+    with concrete_region():
+        if perm:
+            cover("non-identity-order")
+        results = []
+        real = ch.list_dotted_names
+        for p_ in (0, perm):
+            sb = Sandbox(kinds="memory")
+            clear_process_state()
+            stub = _PermutingDotted(real, p_)
+            ch.list_dotted_names = stub
+            mm.list_dotted_names = stub
+            lib = Program("vpkb.lib", package="vpkb")
+            app = Program("vpka.app", package="vpka")
+            try:
+                lib.exec(XPKG_LIB)
+                app.mod.__dict__["lib"] = lib.mod
+                app.exec(XPKG_APP % XPKG_BODIES[body])
+                out = {}
+                for nm in ("report", "top"):
+                    fn = getattr(app, nm)
+                    out[nm] = (fn.version(), sorted(r.key for r in fn.hash_rules()),
+                               sorted(x.qualified_name_without_version for x in fn.dependencies().transitive_memento_fn_dependencies()))
+                results.append(out)
+            finally:
+                ch.list_dotted_names = real
+                mm.list_dotted_names = real
+                app.close()
+                lib.close()
+                sb.close()
+        check("versions-rules-and-dependencies-independent-of-set-order", results[0] == results[1],
+              (XPKG_BODIES[body], perm, results[0], results[1]))
+
+
 @obligation(
     "C03.definition_query_order",
     covers=("permuted-definition", "permuted-queries"),
@@ -368,10 +435,15 @@ def held_handles_query_order(ev: int, first: int, base: int, rot: int):
             cover("nothing-queried-before-the-event")
         if min(order.index(i) for i in (3, 4, 7)) < order.index(0):
             cover("clone-queried-before-its-source")
-        check("versions-independent-of-what-was-queried-when", results[0] == results[1], (HELD_EVENTS[ev], HELD_FIRST[first], order, results))
+        # ONE label for both parts: which part fails first may differ between the traced run and the native replay when a change under
+        # test makes versions depend on interpreter-internal state (e.g. specialised bytecode)
+        ok_order = results[0] == results[1]
+        ok_nochange = True
         if HELD_EVENTS[ev] in HELD_NO_CHANGE:
             cover("event-that-changes-nothing")
-            check("versions-unchanged-by-an-event-that-changes-nothing", results[1] == results[2], (HELD_EVENTS[ev], HELD_FIRST[first], order, results[1], results[2]))
+            ok_nochange = results[1] == results[2] and results[0] == results[2]
+        check("versions-are-a-function-of-the-program-only(not-of-query-order-nor-of-events-that-change-nothing)", ok_order and ok_nochange,
+              (HELD_EVENTS[ev], HELD_FIRST[first], order, "query-order-part:%s no-change-part:%s" % (ok_order, ok_nochange), results))
         r = results[1]
         if HELD_EVENTS[ev] not in ("redefine-a", "redefine-a-identically"):
             # (a redefined function is a new object: handles on the old one keep describing the old one's code - not claimed here)
